@@ -31,7 +31,10 @@ type Observer struct {
 	Views []*View
 	// ReadSize, if set, gives the size of the k-th Read on the body stream.
 	ReadSize func(k int) int
-	Stream   bool
+	// ReadLimit, if set, gives the number of body bytes the handler of the v-th request
+	// on the connection consumes from the stream (-1 = everything).
+	ReadLimit func(v int) int
+	Stream    bool
 	// Respond writes the response for view number k (0-based on this connection).
 	Respond func(ctx *app.RequestContext, v *View, k int)
 }
@@ -61,12 +64,22 @@ func (o *Observer) Handle(c context.Context, ctx *app.RequestContext) {
 	if o.Stream {
 		rd := ctx.RequestBodyStream()
 		k := 0
-		for {
+		limit := -1
+		if o.ReadLimit != nil {
+			o.mu.Lock()
+			nv := len(o.Views)
+			o.mu.Unlock()
+			limit = o.ReadLimit(nv)
+		}
+		for limit != 0 {
 			sz := 4096
 			if o.ReadSize != nil {
 				sz = o.ReadSize(k)
 			}
 			k++
+			if limit > 0 && sz > limit-len(v.Body) {
+				sz = limit - len(v.Body)
+			}
 			buf := make([]byte, sz)
 			n, err := rd.Read(buf)
 			v.Body = append(v.Body, buf[:n]...)
@@ -78,6 +91,9 @@ func (o *Observer) Handle(c context.Context, ctx *app.RequestContext) {
 			}
 			if k > 1<<20 {
 				v.BodyErr = "too many reads"
+				break
+			}
+			if limit > 0 && len(v.Body) >= limit {
 				break
 			}
 		}
